@@ -36,7 +36,7 @@ impl C05 {
             return;
         }
         let recs = vec![rec(10, &title, 5)];
-        let Ok(mut st) = cx.build(l, &recs, None, Some((SENT_LS, SENT_RS))) else { return };
+        let Some(mut st) = cx.build_noted(l, &recs, None, Some((SENT_LS, SENT_RS))) else { return };
         cx.state();
         let s = tok.words[0].slice;
         let chars = &tok.chars[s.0..s.1];
@@ -125,7 +125,7 @@ impl Prop for C05 {
             })
             .collect();
         for (recs, limit) in stores.iter() {
-            let Ok(mut st) = cx.build(l, recs, Some(*limit), Some((SENT_LS, SENT_RS))) else { return };
+            let Some(mut st) = cx.build_noted(l, recs, Some(*limit), Some((SENT_LS, SENT_RS))) else { return };
             cx.state();
             let toks: Vec<(usize, Option<(std::collections::BTreeSet<Gram>, WordMap)>)> =
                 recs.iter().map(|r| (r.0, tok_record(l, &r.1).map(|t| (text_grams(&t), word_map(&t))))).collect();
